@@ -151,6 +151,18 @@ var Corpus = []Scenario{
 		x.Template("B")
 		x.D.Converge(40)
 	}},
+	{"rolling-update-percent-unfit-nodes", []string{"C03", "C09", "C02"}, func(x Scn) {
+		// percentages resolve against the targeted nodes only, not against every node of the cluster
+		sc := BaseStrategy()
+		sc.MaxUnavailable = "25%"
+		sc.SlowStartIncrease = "25%"
+		x.Setup(4, "A", sc)
+		for i := 5; i <= 8; i++ {
+			x.do(Action{Op: "NodeAdd", N: "n" + strconv.Itoa(i), V: "", W: "z=z1"})
+		}
+		x.Template("B")
+		x.D.Converge(60)
+	}},
 	{"rolling-update-percent", []string{"C03", "C02", "C09", "C14"}, func(x Scn) {
 		sc := BaseStrategy()
 		sc.MaxUnavailable = "50%"
@@ -169,6 +181,24 @@ var Corpus = []Scenario{
 		x.Template("B")
 		x.Rounds(2)
 		x.Template("C")
+		x.D.Converge(40)
+	}},
+	{"freeze-then-ramp", []string{"C09", "C08", "C02"}, func(x Scn) {
+		// time spent frozen / paused must not count as slow-start ramp time
+		sc := BaseStrategy()
+		sc.SlowStartIncrease = "1"
+		x.Setup(2, "A", sc)
+		x.Ann("frozen", "true")
+		x.Rounds(1)
+		for i := 3; i <= 7; i++ {
+			x.do(Action{Op: "NodeAdd", N: "n" + strconv.Itoa(i), V: "A,B,C", W: "z=z1"})
+		}
+		x.Rounds(3)
+		x.Ann("frozen", "")
+		x.Rounds(2)
+		x.Ann("ru-paused", "true")
+		x.Rounds(3)
+		x.Ann("ru-paused", "false")
 		x.D.Converge(40)
 	}},
 	{"pause-freeze", []string{"C08", "C02", "C14", "C09"}, func(x Scn) {
@@ -292,6 +322,78 @@ var Corpus = []Scenario{
 		x.do(Action{Op: "NodeCSel", N: "n4", V: "on"})
 		x.D.Converge(50)
 	}},
+	{"canary-node-tainted", []string{"C01", "C15", "C04", "C02"}, func(x Scn) {
+		// a canary node stops being eligible after it was selected
+		x.Setup(4, "A", CanaryStrategy("2"))
+		x.Template("B")
+		x.AwaitCanaryPods(8)
+		st := x.D.C.Project()
+		if len(st.EDS[0].CNodes) > 0 {
+			x.do(Action{Op: "NodeTaint", N: st.EDS[0].CNodes[0], V: "on"})
+		}
+		x.Rounds(4)
+		if len(st.EDS[0].CNodes) > 1 {
+			x.do(Action{Op: "NodeSetFits", N: st.EDS[0].CNodes[1], V: "A"})
+		}
+		x.Rounds(4)
+		x.D.Converge(50)
+	}},
+	{"canary-antiaffinity-grow", []string{"C15", "C04"}, func(x Scn) {
+		// the number of canary replicas is raised while the canary runs: additions must still spread over the zones
+		sc := CanaryStrategy("2")
+		sc.CAntiAffinity = true
+		sc.CMode, sc.CDuration, sc.CNoRestarts = "manual", 0, -1
+		x.D.Strategy[Key] = sc
+		for i := 1; i <= 8; i++ {
+			z := "z1"
+			if i > 4 {
+				z = "z2"
+			}
+			x.do(Action{Op: "NodeAdd", N: "n" + strconv.Itoa(i), V: "A,B,C", W: "c;z=" + z})
+		}
+		x.do(Action{Op: "CreateEDS", Key: Key, T: "A"})
+		x.D.Converge(12)
+		// the pods of zone z2 restarted, those of z1 did not: the least-restarts order lists all of z1 first, so only the
+		// anti-affinity quota makes the selection spread
+		for _, n := range []string{"n5", "n6", "n7", "n8"} {
+			x.K("KRestart", n, 1, "Error")
+			x.K("KRestart", n, 1, "Error")
+		}
+		x.do(Action{Op: "KRound"})
+		x.Template("B")
+		x.Rounds(3)
+		sc.CReplicas = "4"
+		x.D.Strategy[Key] = sc
+		x.do(Action{Op: "SetStrategy", Key: Key})
+		x.Rounds(3)
+		sc.CReplicas = "5"
+		x.D.Strategy[Key] = sc
+		x.do(Action{Op: "SetStrategy", Key: Key})
+		x.Rounds(3)
+		x.Ann("c-valid", "B")
+		x.D.Converge(60)
+	}},
+	{"canary-least-restarts", []string{"C15"}, func(x Scn) {
+		sc := CanaryStrategy("2")
+		x.D.Strategy[Key] = sc
+		for i := 1; i <= 5; i++ {
+			x.do(Action{Op: "NodeAdd", N: "n" + strconv.Itoa(i), V: "A,B,C", W: "c;z=z1"})
+		}
+		x.do(Action{Op: "CreateEDS", Key: Key, T: "A"})
+		x.D.Converge(12)
+		for i, n := range []string{"n1", "n2", "n4"} {
+			for k := 0; k <= i; k++ {
+				x.K("KRestart", n, 1, "Error")
+			}
+		}
+		x.do(Action{Op: "KRound"})
+		x.Template("B")
+		x.Rounds(3)
+		sc.CReplicas = "3"
+		x.D.Strategy[Key] = sc
+		x.do(Action{Op: "SetStrategy", Key: Key})
+		x.D.Converge(60)
+	}},
 	{"canary-node-removed", []string{"C15", "C04", "C02"}, func(x Scn) {
 		x.Setup(4, "A", CanaryStrategy("2"))
 		x.Template("B")
@@ -313,6 +415,12 @@ var Corpus = []Scenario{
 		x.do(Action{Op: "NodeOverride", Key: Key, N: "n2", V: "r2"})
 		x.D.Converge(20)
 		x.do(Action{Op: "NodeOverride", Key: Key, N: "n2", V: "r3"})
+		x.D.Converge(20)
+		// different overrides for the two containers of one node
+		x.do(Action{Op: "NodeOverride", Key: Key, N: "n3", V: "r3"})
+		x.do(Action{Op: "NodeOverride", Key: Key, N: "n3", V: "r1", W: SideContainer})
+		x.D.Converge(20)
+		x.do(Action{Op: "NodeOverride", Key: Key, N: "n2", V: "r2", W: SideContainer})
 		x.D.Converge(20)
 		// override annotation and valid setting for the same container of the same node
 		x.do(Action{Op: "NodeOverride", Key: Key, N: "n1", V: "r2"})
@@ -369,7 +477,7 @@ var Corpus = []Scenario{
 		cmd("canary-validate")
 		x.D.Converge(40)
 	}},
-	{"migration-old-daemonset", []string{"C03", "C12", "C02"}, func(x Scn) {
+	{"migration-old-daemonset", []string{"C03", "C12", "C02", "C01"}, func(x Scn) {
 		sc := BaseStrategy()
 		x.D.Strategy[Key] = sc
 		for i := 1; i <= 3; i++ {
@@ -379,6 +487,9 @@ var Corpus = []Scenario{
 		for i := 1; i <= 3; i++ {
 			x.do(Action{Op: "ForeignPod", Key: Key, N: "n" + strconv.Itoa(i), V: "ds", W: "old"})
 		}
+		// a second DaemonSet whose pods carry labels matching the old DaemonSet's selector: not part of the migration
+		x.do(Action{Op: "ForeignPod", Key: Key, N: "n1", V: "ds2", W: "old"})
+		x.do(Action{Op: "ForeignPod", Key: Key, N: "n2", V: "ds2", W: "old"})
 		x.do(Action{Op: "KRound"})
 		x.do(Action{Op: "CreateEDS", Key: Key, T: "A"})
 		x.Ann("old-ds", "old")
